@@ -139,5 +139,5 @@ SUBS = {"history": Sub(predicate, strategy=cases)}
 
 
 def jobs(tier):
-    n = 400 if tier == "quick" else 5000
+    n = 400 if tier == "quick" else 14000
     return [{"sub": "history", "n": n, "shard": i, "nshards": 16} for i in range(16)]
